@@ -1,5 +1,6 @@
 import QuiverModel.Core.Prelude
 import QuiverModel.Core.Packaging.Renaming
+import QuiverModel.Core.Packaging.ValueInstrs
 /-
 Driver glue for `qm_c10`: S-expression → `Prog` (trusted parsing code, no model content).
 
@@ -169,5 +170,42 @@ def parseProg (parts : List Sx) : Except String Prog := do
   return { consts := cs.toArray, fns := fs.toArray, builtins := bs.toArray, tuples := ts.toArray,
            types := ys.toArray, resources := rs.toArray, compat := rows, canon := cn.toArray,
            fparam := fp.toArray, bparam := bp.toArray }
+
+/-! Values and rendering (for the `inject` / `v2i` requests). -/
+
+/-- `(i n)` `(b hex)` `(b)` `(t id v…)` `(f idx v…)` `(u id)` `(r n)` `(p pid f)` `(x rid ty)`. -/
+partial def parseVal : Sx → Option Val
+  | .list [.atom "i", z] => z.asInt.map .int
+  | .list [.atom "b"] => some (.bin [])
+  | .list [.atom "b", .atom h] => (parseHex h).map .bin
+  | .list [.atom "r", n] => n.asNat.map .ref
+  | .list [.atom "u", n] => n.asNat.map .builtin
+  | .list [.atom "p", a, b] => match a.asNat, b.asNat with
+    | some a, some b => some (.proc a b)
+    | _, _ => none
+  | .list [.atom "x", a, b] => match a.asNat, b.asNat with
+    | some a, some b => some (.res a b)
+    | _, _ => none
+  | .list (.atom "t" :: id :: vs) => match id.asNat, mapOpt parseVal vs with
+    | some id, some vs => some (.tuple id vs)
+    | _, _ => none
+  | .list (.atom "f" :: id :: vs) => match id.asNat, mapOpt parseVal vs with
+    | some id, some vs => some (.fn id vs)
+    | _, _ => none
+  | _ => none
+
+def renderInstr : Instr → String
+  | .const n => s!"(c {n})" | .pop => "pop" | .dup => "dup" | .pick n => s!"(pick {n})"
+  | .rotate n => s!"(rot {n})" | .reset n => s!"(reset {n})" | .load n => s!"(load {n})" | .store => "store"
+  | .tuple n => s!"(tup {n})" | .get n => s!"(get {n})" | .isType n => s!"(ist {n})"
+  | .jump k => s!"(jmp {k})" | .jumpIf k => s!"(jif {k})" | .call => "call"
+  | .tailCall b => s!"(tc {if b then 1 else 0})" | .function n => s!"(fn {n})" | .builtin n => s!"(bi {n})"
+  | .equal n => s!"(eq {n})" | .not => "not" | .spawn => "spawn" | .send => "send" | .self => "self"
+  | .select => "select" | .process p f => s!"(proc {p} {f})"
+
+def renderConst : Const → String
+  | .int z => s!"(i {z})"
+  | .bin [] => "(b)"
+  | .bin bs => s!"(b {toHex bs})"
 
 end QM.Packaging.Codec
